@@ -27,6 +27,7 @@
 #include <sys/socket.h>
 #include <sys/epoll.h>
 #include <poll.h>
+#include <signal.h>
 
 ssize_t __real_read(int, void *, size_t);
 ssize_t __real_write(int, const void *, size_t);
@@ -336,6 +337,9 @@ static const JanetReg c16_cfuns[] = {
 
 int main(int argc, char **argv) {
     c16_init();
+    /* a write to a pipe / socket whose peer is gone must come back as EPIPE (an error the fiber can see), not kill the
+     * whole interpreter: the usual arrangement of a program that handles its own I/O errors */
+    signal(SIGPIPE, SIG_IGN);
     janet_init();
     JanetTable *env = janet_core_env(NULL);
     janet_cfuns(env, NULL, c16_cfuns);
